@@ -133,6 +133,7 @@ class Monitor:
     mode: "before"  -> raise OSError instead of performing the call
           "partial" -> (data-moving calls only) perform half of it, then raise OSError
           "assert-before" / "assert-partial" -> the same but AssertionError, only for YAML dump
+          "...-unflushed" -> the partial output stays in the handle's buffer (no flush before the error)
     """
     DATA_KINDS = ("dump", "dump_all", "json.dump", "print", "copy2", "copyfileobj")
 
@@ -259,7 +260,7 @@ class Monitor:
             act = mon._step(label, kind)
             if act in ("before", "assert-before"):
                 mon._raise(label)
-            if act in ("partial", "assert-partial"):
+            if act in ("partial", "assert-partial", "partial-unflushed", "assert-partial-unflushed"):
                 buf = io.StringIO()
                 mon._in_dump = True
                 try:
@@ -268,7 +269,8 @@ class Monitor:
                     mon._in_dump = False
                 text = buf.getvalue()
                 stream.write(text[:max(1, len(text) // 2)])
-                stream.flush()
+                if not act.endswith("unflushed"):
+                    stream.flush()
                 mon._raise(label)
             mon._in_dump = True
             try:
@@ -656,8 +658,12 @@ def _modes_for(kind, tool):
     modes = ["before"]
     if kind in Monitor.DATA_KINDS:
         modes.append("partial")
+    if kind in ("dump", "dump_all"):
+        # the emitter fails after part of its output sits in the handle's buffer, not yet on disk: whatever the
+        # tool does next, closing that handle later flushes those bytes
+        modes.append("partial-unflushed")
     if kind in ("dump", "dump_all") and tool == "set":
-        modes += ["assert-before", "assert-partial"]
+        modes += ["assert-before", "assert-partial", "assert-partial-unflushed"]
     return modes
 
 
